@@ -70,6 +70,17 @@ def replaceBelowR [DecidableEq κ] (R : RankLists κ) (q : List κ) (d' : Nat) (
   (unregBelow R q).mapIdx (fun i l =>
     if q.length < i then l ++ (pathsAt (d' + 1) sub (i - q.length)).map (q ++ ·) else l)
 
+/-- the rank lists after a populate loop (`z << a`, nested or not) has run on the fiber at `q`, turning
+    the sub-tree `z` into `z'`: `_create_payload` appends every fiber it creates to the next rank and the
+    clean-up pops it again if the body left it empty, so what remains appended are the fibers of `z'` that
+    `z` did not have, in creation (= depth-first) order -/
+def popRanksR [DecidableEq κ] (R : RankLists κ) (q : List κ) (d' : Nat) (z z' : Tree κ ν (d' + 1)) : RankLists κ :=
+  R.mapIdx (fun i l =>
+    if q.length < i then
+      l ++ ((pathsAt (d' + 1) z' (i - q.length)).filter
+              (fun p => !(pathsAt (d' + 1) z (i - q.length)).contains p)).map (q ++ ·)
+    else l)
+
 /-- the fiber reached by `path`, as a dependent pair (remaining payload depth, fiber) -/
 def locate : (d : Nat) → Tree κ ν (d + 1) → List κ → Option (Σ d' : Nat, Tree κ ν (d' + 1))
   | d, f, [] => some ⟨d, f⟩
@@ -108,6 +119,14 @@ def assignStepR (dflt : ν) (d : Nat) (t : Tree Int ν (d + 1)) (R : RankLists I
     Tree Int ν (d + 1) × RankLists Int :=
   match locate d t q with
   | some ⟨d', s⟩ => ((mstep dflt d t (.assignF q g)).1, replaceBelowR R q d' (fiberStep dflt (.assignF q g) d' s).1)
+  | none => (t, R)
+
+/-- a (nested) populate loop at the fiber reached by `q`, on the pair (tree, rank lists) -/
+def populateStepR (dflt : ν) (d : Nat) (t : Tree Int ν (d + 1)) (R : RankLists Int) (q : List Int) (a : TreeArg ν)
+    (leafF : List Int → ν → ν → ν) (inner : List Int → Inner Int) : Tree Int ν (d + 1) × RankLists Int :=
+  match locate d t q with
+  | some ⟨d', s⟩ => ((mstep dflt d t (.populate q a leafF inner)).1,
+                    popRanksR R q d' s (fiberStep dflt (.populate q a leafF inner) d' s).1)
   | none => (t, R)
 
 end
